@@ -65,10 +65,10 @@ Fixpoint gen (y : sys) (delivered : list N) (l : list istep) : list step :=
   end.
 
 (* the script *)
-Definition w (tok : bytes) : entry := Entry true 12 (HUser false (hx "7531") tok 0%Z 0%Z) (hx "0101") None.
+Definition w (tok : bytes) : entry := Entry true 12 (HUser false (hx "7531") tok 0%Z 0%Z) (hx "0101") None None.
 Definition script (schedule : list (list N)) : list istep :=
   [ISrc [w (hx "30")]; IStartDelta; ISrc [w (hx "61")]; ISnapshot; ITgt [w (hx "7a")];
-   ISrc [w (hx "62"); Entry true 12 (HFence 12 0) (hx "0115") None; w (hx "63")]]
+   ISrc [w (hx "62"); Entry true 12 (HFence 12 0) (hx "0115") None None; w (hx "63")]]
   ++ map IDeliver schedule
   ++ [ISwitch; ISrc [w (hx "64")]; ITgt [w (hx "65")]].
 
